@@ -2,15 +2,20 @@
 // one of these Mesos states -> KILL" (C18, model Reconcile.v):
 //   - the list of mesos.TASK_* states of the disjunction,
 //   - whether the condition skips the tasks found in the roster of the current life (it does since
-//     the repair of C18-a: `m.roster.getByTaskId(<task id of the status>) == nil`; without that
-//     conjunct recon_guarded = false and the full theorem of props/C18.v no longer checks),
+//     the repair of C18-a: `m.roster.getByTaskId(<task id of the status>) == nil`, or an equivalent
+//     form - lookup != nil negated, m.roster.contains(func(t) { return t.taskId == id }) negated,
+//     parts hoisted into local variables; a test that also looks at the status / lock / state of the
+//     roster task is rejected; without the conjunct recon_guarded = false and the full theorem of
+//     props/C18.v no longer checks),
 //   - the skeleton the model takes for granted: the reason literal is the name of
 //     mesos.REASON_RECONCILIATION, the guarded block builds calls.Kill and sends it, the status is
 //     handed to updateTaskStatus only in the else branch; core/task/scheduler.go reconciliationCall
 //     sends calls.Reconcile(calls.ReconcileTasks(nil)) and is installed in the SUBSCRIBED chain after
 //     controller.TrackSubscription; NewManager reads and writes the runtime entry aliecs/mesos_fid,
 //   - whether doKillTasks sends KILL only to the ACTIVE tasks of the set it removes from the roster
-//     or to the others as well (kill_inactive; the repair of C06-b added the second loop).
+//     or to the others as well (kill_inactive; the repair of C06-b added the second loop),
+//   - which Mesos states make updateTaskStatus set a roster task ACTIVE / INACTIVE (a roster task of a
+//     live environment can be INACTIVE while the master has it alive: launch window, TASK_LOST).
 package main
 
 import (
@@ -93,21 +98,99 @@ func rcHasCall(n ast.Node, pkg, name string) bool {
 	return found
 }
 
-// rcIsRosterMiss: `m.roster.getByTaskId(<task id of the status>) == nil` (or the exported
-// m.GetTask, which is the same lookup): the task is NOT in the roster of the current life.  The
-// opposite polarity, another receiver or another argument is not the rule the model has.
-func rcIsRosterMiss(e ast.Expr) bool {
-	if p, ok := e.(*ast.ParenExpr); ok {
-		return rcIsRosterMiss(p.X)
+// Local variables of handleMessage that are defined exactly once (`x := e`) are read through, so
+// that hoisting a part of the test into a variable (taskId := ..., inRoster := ..., killable := ...)
+// does not change what the translator sees.  The names the rest of the translator keys on stay.
+var rcDefs map[string]ast.Expr
+
+func rcCollectDefs(body *ast.BlockStmt) {
+	rcDefs = map[string]ast.Expr{}
+	count := map[string]int{}
+	ast.Inspect(body, func(x ast.Node) bool {
+		switch v := x.(type) {
+		case *ast.AssignStmt:
+			for i, l := range v.Lhs {
+				id, ok := l.(*ast.Ident)
+				if !ok {
+					continue
+				}
+				count[id.Name]++
+				if v.Tok == token.DEFINE && len(v.Lhs) == len(v.Rhs) {
+					rcDefs[id.Name] = v.Rhs[i]
+				}
+			}
+		case *ast.RangeStmt:
+			for _, l := range []ast.Expr{v.Key, v.Value} {
+				if id, ok := l.(*ast.Ident); ok {
+					count[id.Name] += 2
+				}
+			}
+		}
+		return true
+	})
+	for n := range rcDefs {
+		if count[n] != 1 {
+			delete(rcDefs, n)
+		}
 	}
-	b, ok := e.(*ast.BinaryExpr)
-	if !ok || b.Op != token.EQL {
-		return false
+	for _, n := range []string{"mesosStatus", "mesosState", "tm", "m"} {
+		delete(rcDefs, n)
 	}
-	if id, ok := b.Y.(*ast.Ident); !ok || id.Name != "nil" {
-		return false
+}
+
+func rcResolve(e ast.Expr, depth int) ast.Expr {
+	switch v := e.(type) {
+	case *ast.Ident:
+		if d, ok := rcDefs[v.Name]; ok && depth < 5 {
+			r := rcResolve(d, depth+1)
+			if _, bin := r.(*ast.BinaryExpr); bin {
+				return &ast.ParenExpr{X: r}
+			}
+			return r
+		}
+		return v
+	case *ast.ParenExpr:
+		return &ast.ParenExpr{X: rcResolve(v.X, depth)}
+	case *ast.BinaryExpr:
+		return &ast.BinaryExpr{X: rcResolve(v.X, depth), Op: v.Op, Y: rcResolve(v.Y, depth)}
+	case *ast.UnaryExpr:
+		return &ast.UnaryExpr{Op: v.Op, X: rcResolve(v.X, depth)}
+	case *ast.SelectorExpr:
+		return &ast.SelectorExpr{X: rcResolve(v.X, depth), Sel: v.Sel}
+	case *ast.CallExpr:
+		args := make([]ast.Expr, len(v.Args))
+		for i, a := range v.Args {
+			args[i] = rcResolve(a, depth)
+		}
+		return &ast.CallExpr{Fun: rcResolve(v.Fun, depth), Args: args}
 	}
-	c, ok := b.X.(*ast.CallExpr)
+	return e
+}
+
+func rcUnparen(e ast.Expr) ast.Expr {
+	for {
+		p, ok := e.(*ast.ParenExpr)
+		if !ok {
+			return e
+		}
+		e = p.X
+	}
+}
+
+// the task id of the status update being handled
+func rcIsStatusTaskId(e ast.Expr) bool {
+	src := rcSrc(rcResolve(e, 0))
+	return strings.Contains(src, "mesosStatus ") && strings.Contains(src, "TaskID")
+}
+
+func rcIsNil(e ast.Expr) bool {
+	id, ok := rcUnparen(e).(*ast.Ident)
+	return ok && id.Name == "nil"
+}
+
+// rcIsRosterLookup: m.roster.getByTaskId(<task id of the status>) or the exported m.GetTask(..)
+func rcIsRosterLookup(e ast.Expr) bool {
+	c, ok := rcUnparen(e).(*ast.CallExpr)
 	if !ok || len(c.Args) != 1 {
 		return false
 	}
@@ -131,8 +214,94 @@ func rcIsRosterMiss(e ast.Expr) bool {
 	default:
 		return false
 	}
-	arg := rcSrc(c.Args[0])
-	return strings.Contains(arg, "mesosStatus ") && strings.Contains(arg, "TaskID")
+	return rcIsStatusTaskId(c.Args[0])
+}
+
+// rcIsRosterHit: "the task IS in the roster", by task id and by nothing else: `<lookup> != nil`, or
+// m.roster.contains(func(t *Task) bool { return t.taskId == <task id of the status> }).
+// A predicate that looks at anything but the id (status, lock, state) is not the rule of the model.
+func rcIsRosterHit(e ast.Expr) bool {
+	e = rcUnparen(e)
+	switch v := e.(type) {
+	case *ast.UnaryExpr:
+		return v.Op == token.NOT && rcIsRosterMiss(v.X)
+	case *ast.BinaryExpr:
+		return v.Op == token.NEQ && ((rcIsNil(v.Y) && rcIsRosterLookup(v.X)) || (rcIsNil(v.X) && rcIsRosterLookup(v.Y)))
+	case *ast.CallExpr:
+		s, ok := v.Fun.(*ast.SelectorExpr)
+		if !ok || s.Sel.Name != "contains" || len(v.Args) != 1 {
+			return false
+		}
+		r, ok := s.X.(*ast.SelectorExpr)
+		if !ok || r.Sel.Name != "roster" {
+			return false
+		}
+		fl, ok := v.Args[0].(*ast.FuncLit)
+		if !ok || len(fl.Body.List) != 1 || fl.Type.Params == nil || len(fl.Type.Params.List) != 1 || len(fl.Type.Params.List[0].Names) != 1 {
+			return false
+		}
+		param := fl.Type.Params.List[0].Names[0].Name
+		ret, ok := fl.Body.List[0].(*ast.ReturnStmt)
+		if !ok || len(ret.Results) != 1 {
+			return false
+		}
+		b, ok := rcUnparen(ret.Results[0]).(*ast.BinaryExpr)
+		if !ok || b.Op != token.EQL {
+			return false
+		}
+		isParamId := func(x ast.Expr) bool {
+			x = rcUnparen(x)
+			if c, ok := x.(*ast.CallExpr); ok && len(c.Args) == 0 {
+				x = c.Fun
+				if sel, ok := x.(*ast.SelectorExpr); ok && sel.Sel.Name == "GetTaskId" {
+					id, ok := sel.X.(*ast.Ident)
+					return ok && id.Name == param
+				}
+				return false
+			}
+			sel, ok := x.(*ast.SelectorExpr)
+			if !ok || sel.Sel.Name != "taskId" {
+				return false
+			}
+			id, ok := sel.X.(*ast.Ident)
+			return ok && id.Name == param
+		}
+		return (isParamId(b.X) && rcIsStatusTaskId(b.Y)) || (isParamId(b.Y) && rcIsStatusTaskId(b.X))
+	}
+	return false
+}
+
+// rcIsRosterMiss: "the task is NOT in the roster of the current life": `<lookup> == nil` or the
+// negation of a roster hit.
+func rcIsRosterMiss(e ast.Expr) bool {
+	e = rcUnparen(e)
+	switch v := e.(type) {
+	case *ast.UnaryExpr:
+		return v.Op == token.NOT && rcIsRosterHit(v.X)
+	case *ast.BinaryExpr:
+		return v.Op == token.EQL && ((rcIsNil(v.Y) && rcIsRosterLookup(v.X)) || (rcIsNil(v.X) && rcIsRosterLookup(v.Y)))
+	}
+	return false
+}
+
+// rcReasonTest: `<...GetReason()...>.String() == "REASON_x"` or `<...GetReason()> == mesos.REASON_x`
+func rcReasonTest(e ast.Expr) (string, bool) {
+	b, ok := rcUnparen(e).(*ast.BinaryExpr)
+	if !ok || b.Op != token.EQL {
+		return "", false
+	}
+	for _, xy := range [][2]ast.Expr{{b.X, b.Y}, {b.Y, b.X}} {
+		if !strings.Contains(rcSrc(xy[0]), "GetReason") {
+			continue
+		}
+		if s, ok := strLit(rcUnparen(xy[1])); ok && strings.HasPrefix(s, "REASON_") {
+			return s, true
+		}
+		if sel, ok := rcUnparen(xy[1]).(*ast.SelectorExpr); ok && strings.HasPrefix(sel.Sel.Name, "REASON_") {
+			return sel.Sel.Name, true
+		}
+	}
+	return "", false
 }
 
 func reconcileRule() string {
@@ -141,7 +310,8 @@ func reconcileRule() string {
 	if fd == nil {
 		die("Manager.handleMessage not found")
 	}
-	// the if statement whose condition compares a String() with the reconciliation reason
+	// the if statement whose condition compares the reason of the status with the reconciliation reason
+	rcCollectDefs(fd.Body)
 	var theIf *ast.IfStmt
 	var reason string
 	ast.Inspect(fd.Body, func(x ast.Node) bool {
@@ -150,13 +320,9 @@ func reconcileRule() string {
 			return true
 		}
 		var conj []ast.Expr
-		rcFlattenAnd(is.Cond, &conj)
+		rcFlattenAnd(rcResolve(is.Cond, 0), &conj)
 		for _, c := range conj {
-			b, ok := c.(*ast.BinaryExpr)
-			if !ok || b.Op != token.EQL {
-				continue
-			}
-			if s, ok := strLit(b.Y); ok && strings.HasPrefix(s, "REASON_") && strings.Contains(rcSrc(b.X), "GetReason") {
+			if s, ok := rcReasonTest(c); ok {
 				if theIf != nil {
 					die("handleMessage: more than one reconciliation test")
 				}
@@ -172,13 +338,13 @@ func reconcileRule() string {
 		die("handleMessage tests the reason %q, the name of mesos.REASON_RECONCILIATION is %q", reason, mesos.REASON_RECONCILIATION.String())
 	}
 	var conj []ast.Expr
-	rcFlattenAnd(theIf.Cond, &conj)
+	rcFlattenAnd(rcResolve(theIf.Cond, 0), &conj)
 	var states []int32
 	var names []string
 	guarded := false
 	for _, c := range conj {
 		src := rcSrc(c)
-		if strings.Contains(src, "GetReason") {
+		if _, ok := rcReasonTest(c); ok {
 			continue
 		}
 		var disj []ast.Expr
@@ -187,8 +353,8 @@ func reconcileRule() string {
 		var st []int32
 		var nm []string
 		for _, d := range disj {
-			b, ok := d.(*ast.BinaryExpr)
-			if !ok || b.Op != token.EQL {
+			b, ok := rcUnparen(d).(*ast.BinaryExpr)
+			if !ok || b.Op != token.EQL || !strings.Contains(rcSrc(b.X), "mesosState") {
 				allStates = false
 				break
 			}
@@ -341,6 +507,67 @@ func reconcileRule() string {
 		die("doKillTasks no longer sends KILL to the ACTIVE tasks of the set")
 	}
 
+	// updateTaskStatus: which Mesos states make a roster task ACTIVE / INACTIVE (the status a task of
+	// the roster has has no say in the reconciliation rule: the model spares every roster task)
+	us := findFunc(f, "Manager", "updateTaskStatus")
+	if us == nil {
+		die("Manager.updateTaskStatus not found")
+	}
+	var activating, deactivating []int32
+	ast.Inspect(us.Body, func(x ast.Node) bool {
+		cc, ok := x.(*ast.CaseClause)
+		if !ok {
+			return true
+		}
+		var sts []int32
+		for _, e := range cc.List {
+			sel, ok := e.(*ast.SelectorExpr)
+			if !ok {
+				return true
+			}
+			v, ok := mesos.TaskState_value[sel.Sel.Name]
+			if !ok {
+				return true
+			}
+			sts = append(sts, v)
+		}
+		if len(sts) == 0 {
+			return true
+		}
+		for _, st := range cc.Body {
+			as, ok := st.(*ast.AssignStmt)
+			if !ok || len(as.Lhs) != 1 || len(as.Rhs) != 1 {
+				continue
+			}
+			l, ok := as.Lhs[0].(*ast.SelectorExpr)
+			r, ok2 := as.Rhs[0].(*ast.Ident)
+			if !ok || !ok2 || l.Sel.Name != "status" {
+				continue
+			}
+			switch r.Name {
+			case "ACTIVE":
+				activating = append(activating, sts...)
+			case "INACTIVE":
+				deactivating = append(deactivating, sts...)
+			default:
+				die("updateTaskStatus assigns the task status %s, unknown to the model", r.Name)
+			}
+		}
+		return true
+	})
+	if len(activating) == 0 || len(deactivating) == 0 {
+		die("updateTaskStatus: no `case mesos.TASK_x: ... taskPtr.status = ACTIVE|INACTIVE` clauses found")
+	}
+	sort.Slice(activating, func(i, j int) bool { return activating[i] < activating[j] })
+	sort.Slice(deactivating, func(i, j int) bool { return deactivating[i] < deactivating[j] })
+	nlist := func(xs []int32) string {
+		it := make([]string, len(xs))
+		for i, x := range xs {
+			it[i] = fmt.Sprintf("%d", x)
+		}
+		return "[" + strings.Join(it, "; ") + "]"
+	}
+
 	type ent struct {
 		n int32
 		s string
@@ -351,7 +578,7 @@ func reconcileRule() string {
 	}
 	sort.Slice(ents, func(i, j int) bool { return ents[i].n < ents[j].n })
 	var b strings.Builder
-	b.WriteString("(* regenerated on every run by harness/cmd/translate (reconcile) from\n   core/task/manager.go (handleMessage, NewManager, doKillTasks) and core/task/scheduler.go *)\n")
+	b.WriteString("(* regenerated on every run by harness/cmd/translate (reconcile) from\n   core/task/manager.go (handleMessage, NewManager, doKillTasks, updateTaskStatus) and core/task/scheduler.go *)\n")
 	b.WriteString("From Verif Require Import Common.\nOpen Scope N_scope.\n")
 	b.WriteString("(* Mesos task states (numeric values of mesos.TaskState) for which a status update with reason\n   REASON_RECONCILIATION makes handleMessage send KILL *)\n")
 	b.WriteString("Definition recon_kill_states : list N := [\n")
@@ -371,5 +598,9 @@ func reconcileRule() string {
 	fmt.Fprintf(&b, "Definition mesos_live_states : list N := [%d; %d; %d; %d]. (* STAGING STARTING RUNNING KILLING *)\n",
 		mesos.TASK_STAGING, mesos.TASK_STARTING, mesos.TASK_RUNNING, mesos.TASK_KILLING)
 	fmt.Fprintf(&b, "Definition mesos_running : N := %d.\n", mesos.TASK_RUNNING)
+	fmt.Fprintf(&b, "Definition mesos_staging : N := %d.\nDefinition mesos_starting : N := %d.\n", mesos.TASK_STAGING, mesos.TASK_STARTING)
+	fmt.Fprintf(&b, "Definition mesos_lost : N := %d.\nDefinition mesos_failed : N := %d.\n", mesos.TASK_LOST, mesos.TASK_FAILED)
+	b.WriteString("(* updateTaskStatus: the Mesos states of a status update that make a roster task ACTIVE / INACTIVE *)\n")
+	fmt.Fprintf(&b, "Definition status_activating : list N := %s.\nDefinition status_deactivating : list N := %s.\n", nlist(activating), nlist(deactivating))
 	return b.String()
 }
